@@ -1268,6 +1268,29 @@ Definition tr_TarsInvoke_timeout (req : go_requestf_RequestPacket) (s_timeout : 
     (fun st : (list Z) * go_requestf_RequestPacket * Z => let '(out, req, timeout) := st in
     Next (out, timeout, req))).
 
+(* tars/adapter.go: func AdapterProxy.Recv, statements "if packet.IRequestId == 0 {" .. "if ok {" *)
+Definition tr_adapter_Recv (read_timeout : Z) (found : bool) (pkt_type : Z) (pkt_id : Z) (select_ : Z) (out : list (Z * Z)) : ctl (list (Z * Z)) (list (Z * Z) * unit) :=
+  bindc (if (pkt_id =? 0)
+      then let out := out ++ (go_tag 1 0 ) in let _ := false in
+        Return (out, tt)
+      else Next out)
+    (fun out : (list (Z * Z)) =>
+    bindc (if (pkt_type =? k_basef_TARSONEWAY)
+      then Return (out, tt)
+      else Next out)
+    (fun out : (list (Z * Z)) =>
+    let ok := found in
+    bindc (if ok
+      then let out := out ++ (go_tag 2 0) ++ (go_tag 3 read_timeout) in
+        bindc (if (select_ =? 0)
+          then Next out
+          else Next out)
+        (fun out : (list (Z * Z)) =>
+        Next out)
+      else Next out)
+    (fun out : (list (Z * Z)) =>
+    Next out))).
+
 (* tars/transport/tarsclient.go: func connection.recv, statements "currBuffer = append(currBuffer, buffer[:n]...)" .. "for {" *)
 Definition tr_cli_recv_chunk (fuel : nat) (buffer : (list N)) (currBuffer : (list N)) (n : Z) (parse_package : list N -> Z * Z) (out : list (list N)) : ctl ((list (list N)) * (list N)) (list (list N) * unit) :=
   if (go_slice_ok buffer 0 n) then (let currBuffer := currBuffer ++ (go_slice buffer 0 n) in
